@@ -174,11 +174,18 @@ class RunFault(Exception):
 
 
 def _pvalue(v):
+    """parameter value as the task received it -> the JSON-like / definition form the oracle reasons about"""
     if isinstance(v, Path):
         return str(v)
     d = getattr(v, '_taskchain_instantiate_def', None)
     if d is not None:
-        return {'$obj': d}
+        return d
+    if isinstance(v, list):
+        return [_pvalue(x) for x in v]
+    if isinstance(v, dict):
+        return {k: _pvalue(x) for k, x in v.items()}
+    if isinstance(v, str) and type(v) is not str:
+        return str(v)
     return v
 
 
@@ -232,7 +239,7 @@ def _generic_run(self, cspec, argvals):
             v = self.params[p['name']]
         else:
             v = getattr(self.params, p['name'])
-        params[p['name']] = V.canon_json(_pvalue(v))
+        params[p['name']] = A.canon_param(_pvalue(v))
     record = {'t': slug, 'p': params, 'i': reads}
     h = V.digest(record)
     rec['h'] = h
@@ -328,6 +335,34 @@ def build_classes(world):
         sys.modules[f'tcw.p{pi}'] = m
         setattr(pkg, f'p{pi}', m)
         mods[pi] = m
+    from taskchain.parameter import AutoParameterObject
+    om = types.ModuleType('tcw.objs')
+    sys.modules['tcw.objs'] = om
+    pkg.objs = om
+
+    class PObj(AutoParameterObject):
+        def __init__(self, a, b='x', verbose=False):
+            self.a = a
+            self._b = b
+            self.verbose = verbose
+
+    class PDef(AutoParameterObject):
+        def __init__(self, c=1, d=None, debug=False):
+            self.c = c
+            self.d = d
+            self.debug = debug
+
+        @staticmethod
+        def dont_persist_default_value_args():
+            return ['d']
+
+    class PSet(AutoParameterObject):
+        def __init__(self, tags):
+            self.tags = set(tags)
+
+    for k in (PObj, PDef, PSet):
+        k.__module__ = 'tcw.objs'
+        setattr(om, k.__name__, k)
     ret_types = {'int': int, 'float': float, 'str': str, 'bool': bool, 'dict': dict, 'list': list, 'ndarray': np.ndarray,
                  'frame': pd.DataFrame, 'series': pd.Series, 'gen': Generator, 'genlazy': Generator, 'dir': DirData,
                  'cont': ContinuesData, 'listnp': list, 'mem': dict}
@@ -445,6 +480,9 @@ class Renderer:
                         vals[key] = json.loads(json.dumps(p['default']['v']))
         for k, v in (render.get('extra', {}) or {}).items():
             vals.setdefault(k, v)
+        for k, v in (render.get('ignored_values', {}) or {}).items():
+            if k in self._ignored_keys(cfg):
+                vals[k] = v
         items = list(vals.items())
         if render.get('perm'):
             items = _perm(items, render['perm'] + ci)
@@ -457,6 +495,14 @@ class Renderer:
         if not first:
             data['tasks'] = self.tasks_field(cfg, render)
         return data
+
+    def _ignored_keys(self, cfg):
+        out = set()
+        for cid in self.world['pipelines'][cfg['pipe']]['classes']:
+            for p in self.world['classes'][cid]['params']:
+                if p.get('ignore'):
+                    out.add(p.get('nic') or p['name'])
+        return out
 
     def build(self, root_index, render):
         """-> taskchain Config for the root (fresh objects / freshly written files)."""
@@ -592,8 +638,9 @@ class Proc:
         self.job = job
         self.world = job['world']
         self.root = Path(job['root'])
-        self.store = self.root / 'store'
+        self.stores = self.root / 'stores'
         self.cfgdir = self.root / 'cfg'
+        self.chain_store = {}
         self.chains = {}
         self.multis = {}
         self.tokens = {}
@@ -622,6 +669,9 @@ class Proc:
     # --- ops
     def op_build(self, op):
         ST.active = False
+        self.renderer.store = self.stores / op.get('store', 'main')
+        self.renderer.store.mkdir(parents=True, exist_ok=True)
+        self.chain_store[op['cid']] = self.renderer.store
         cfg = self.renderer.build(op['root'], op['render'])
         ST.active = True
         try:
@@ -634,6 +684,8 @@ class Proc:
     def op_mbuild(self, op):
         from taskchain import MultiChain
         ST.active = False
+        self.renderer.store = self.stores / op.get('store', 'main')
+        self.renderer.store.mkdir(parents=True, exist_ok=True)
         cfgs = [self.renderer.build(m['root'], m['render']) for m in op['members']]
         ST.active = True
         try:
@@ -646,6 +698,7 @@ class Proc:
         for k, name in enumerate(names):
             ch = mc[name]
             self.chains[f'{op["mid"]}/{k}'] = ch
+            self.chain_store[f'{op["mid"]}/{k}'] = self.renderer.store
             out[str(k)] = self.describe(ch)
         return {'chains': out, 'names': names}
 
@@ -681,7 +734,7 @@ class Proc:
             elif kind == 'data_path':
                 for n in names:
                     p = chain.tasks[n].data_path
-                    out[n] = None if p is None else os.path.relpath(str(p), str(self.store))
+                    out[n] = None if p is None else os.path.relpath(str(p), str(self.chain_store[op['cid']]))
             elif kind == 'run_info':
                 for n in names:
                     out[n] = _jsonable(chain.tasks[n].run_info)
@@ -749,15 +802,17 @@ class Proc:
 
     def op_ls(self, op):
         ST.active = False
-        return {'ls': listing(self.store if not op.get('dir') else self.root / op['dir'])}
+        return {'ls': listing(self.stores / op.get('store', 'main'))}
 
     def op_migrate(self, op):
         from taskchain.utils.migration import migrate_to_parameter_mode
         import contextlib
         ST.active = False
+        self.renderer.store = self.stores / op.get('store', 'src')
+        self.renderer.store.mkdir(parents=True, exist_ok=True)
         cfg = self.renderer.build(op['root'], op['render'])
         ST.active = True
-        target = self.root / op['target']
+        target = self.stores / op['target']
         buf = io.StringIO()
         try:
             with contextlib.redirect_stdout(buf):
@@ -765,12 +820,6 @@ class Proc:
         except Exception as e:
             return {'err': [type(e).__name__, str(e)[:300]]}
         return {'ok': True, 'out_lines': buf.getvalue().count('\n')}
-
-    def op_swapstore(self, op):
-        """point renderer at another store directory (for the parameter-mode chain on a migration target)."""
-        self.renderer.store = self.root / op['dir']
-        ST.store = str(self.root / op['dir']) + '/'
-        return {'ok': True}
 
 
 def _jsonable(x):
@@ -803,18 +852,18 @@ def run_process(job, out_fd):
     ST.out_fd = out_fd
     ST.proc = job['proc']
     ST.root = job['root']
-    ST.store = os.path.join(job['root'], job.get('store_dir', 'store')) + '/'
+    ST.store = os.path.join(job['root'], 'stores') + '/'
     from taskchain import Chain
     Chain.log_handler.setLevel(100)
     logging.getLogger().setLevel(100)
     logging.getLogger('cache').setLevel(100)
     install_clock(job['proc'])
     pr = Proc(job)
-    pr.store = Path(ST.store)
-    pr.store.mkdir(parents=True, exist_ok=True)
+    pr.stores = Path(ST.store)
+    (pr.stores / 'main').mkdir(parents=True, exist_ok=True)
     pr.cfgdir.mkdir(parents=True, exist_ok=True)
     pr.classes = build_classes(job['world'])
-    pr.renderer = Renderer(job['world'], pr.classes, pr.cfgdir, pr.store)
+    pr.renderer = Renderer(job['world'], pr.classes, pr.cfgdir, pr.stores / 'main')
     sys.addaudithook(_hook)
     for op in job['ops']:
         ST.inv = []
@@ -826,6 +875,7 @@ def run_process(job, out_fd):
         e = op.get('diskerr')
         ST.err_at = e['k'] if e else None
         ST.err_no = getattr(errno, e['errno']) if e else None
+        clock0 = ST.clock.base + ST.clock.ticks
         ST.active = True
         try:
             res = getattr(pr, 'op_' + op['op'])(op)
@@ -834,5 +884,5 @@ def run_process(job, out_fd):
         ST.active = False
         ST.crash_at = None
         ST.err_at = None
-        _emit({'i': op['i'], 'res': res, 'inv': ST.inv, 'fs': ST.fs, 'fired': ST.fired})
+        _emit({'i': op['i'], 'res': res, 'inv': ST.inv, 'fs': ST.fs, 'fired': ST.fired, 'clock': [clock0, ST.clock.base + ST.clock.ticks]})
     _emit({'done': True})
